@@ -32,6 +32,7 @@ RULE = (
     "sources / documents must give a non-zero exit status. Both commands run in-process through runpy for volume and "
     "as real subprocesses (python -m ...) for a sample. Non-trivial = a compiled program with >= 1 dropped op before a "
     "jump target, or a document with a coroutine / position mark / language string; distinct by content hash."
+    " The compile command's child processes run with PYTHONIOENCODING = cp1252 / ascii / latin-1 (function of the source file); its document must stay readable as UTF-8."
 )
 ASSUMPTIONS = [
     "the documented JSON structure is the one of docs/cli_api_usage.rst; 'indices start at 1'",
